@@ -196,3 +196,33 @@ impl Drop for MatrixSlab {
         unsafe { dealloc(self.0.as_ptr(), Layout::new::<MatcherData>()) };
     }
 }
+
+#[cfg(nucleo_verif)]
+impl MatrixSlab {
+    /// verification hook: runs the real `alloc` and reports the extent of each view
+    pub(crate) fn verif_alloc_extents<C: Char>(
+        &mut self,
+        haystack: &[C],
+        needle_len: usize,
+    ) -> Option<(usize, [crate::verif::ViewExtent; 5])> {
+        fn extent<T>(base: isize, view: &[T]) -> crate::verif::ViewExtent {
+            (
+                view.as_ptr() as isize - base,
+                std::mem::size_of_val(view),
+                std::mem::align_of::<T>(),
+            )
+        }
+        let base = self.0.as_ptr() as isize;
+        let view = self.alloc(haystack, needle_len)?;
+        Some((
+            size_of::<MatcherData>(),
+            [
+                extent(base, view.haystack),
+                extent(base, view.bonus),
+                extent(base, view.row_offs),
+                extent(base, view.current_row),
+                extent(base, view.matrix_cells),
+            ],
+        ))
+    }
+}
